@@ -286,4 +286,16 @@ example : DefOk svc0 ⟨true⟩ := by
   exact all c h
 example : (serverArms svc0 ⟨true⟩).map (·.call) = [.unary, .serverStreaming, .clientStreaming, .streaming] := by decide
 
+/- the hypotheses of `C11_end_to_end_defs` hold for a set of definitions whose names collide in
+every way the property mentions: same identifier in another package, no package, and a
+Service-Name that is a prefix of another. -/
+private def svc1 : Service := ⟨bs "Greeter", bs "a", bs "Greeter", [⟨bs "say_hello", bs "SayHello", false, false, bs "Req", bs "Resp"⟩]⟩
+private def svc2 : Service := ⟨bs "Greeter", [], bs "Greeter", [⟨bs "say_hello", bs "SayHello", true, true, bs "Req", bs "Resp"⟩]⟩
+private def svc3 : Service := ⟨bs "Gre", bs "a.b", bs "Gre", [⟨bs "eter", bs "eter", false, true, bs "Req", bs "Resp"⟩]⟩
+example : ([svc0, svc1, svc2, svc3].map (fun s => (pkgShown s ⟨true⟩, s.ident))).Nodup := by decide
+example : C10.WellFormed ([svc0, svc1, svc2, svc3].map (fun s => serverOf s ⟨true⟩)) := by
+  refine ⟨by decide, by decide, by decide⟩
+example : Router.dispatch ([svc0, svc1, svc2, svc3].map (fun s => serverOf s ⟨true⟩)) (bs "/Greeter/SayHello")
+    = .handler (bs "Greeter") (bs "SayHello") := by decide
+
 end C11
